@@ -4,6 +4,8 @@ package dfs
 
 import (
 	"fmt"
+	"sort"
+	"strings"
 	"sync"
 )
 
@@ -108,4 +110,96 @@ func Explore(bound int, run func(c *Chooser) error) (Stats, error) {
 	}
 	err := rec(nil)
 	return st, err
+}
+
+// KPt is a keyed choice point.
+type KPt struct {
+	Site   string
+	N      int
+	Choice int
+}
+
+// KChooser hands out choices by site name: robust against nondeterministic ordering of the points
+// (Go map iteration inside the code under test), provided site names are unique within an execution.
+type KChooser struct {
+	mu   sync.Mutex
+	Dev  map[string]int
+	Seen []KPt
+}
+
+// Choose returns the deviation registered for the site (0 = default).
+func (c *KChooser) Choose(site string, n int) int {
+	c.mu.Lock()
+	defer c.mu.Unlock()
+	ch := c.Dev[site]
+	if ch >= n {
+		ch = 0
+	}
+	c.Seen = append(c.Seen, KPt{site, n, ch})
+	return ch
+}
+
+// Key renders the deviation map canonically.
+func (c *KChooser) Key() string { return devKey(c.Dev) }
+
+func devKey(dev map[string]int) string {
+	var l []string
+	for s, a := range dev {
+		l = append(l, fmt.Sprintf("%s#%d", s, a))
+	}
+	sort.Strings(l)
+	return strings.Join(l, ",")
+}
+
+// ExploreKeyed runs `run` for every set of at most bound site-keyed deviations that is reachable.
+func ExploreKeyed(bound int, run func(c *KChooser) error) (Stats, error) {
+	st := Stats{Sites: map[string]bool{}, SiteFaults: map[string]bool{}}
+	explored := map[string]bool{"": true}
+	var rec func(dev map[string]int) error
+	rec = func(dev map[string]int) error {
+		c := &KChooser{Dev: dev}
+		if err := run(c); err != nil {
+			return err
+		}
+		st.Executions++
+		for _, p := range c.Seen {
+			st.Sites[siteClass(p.Site)] = true
+			if p.Choice != 0 {
+				st.SiteFaults[fmt.Sprintf("%s#%d", siteClass(p.Site), p.Choice)] = true
+			}
+		}
+		if len(dev) >= bound {
+			return nil
+		}
+		for _, p := range c.Seen {
+			if _, ok := dev[p.Site]; ok {
+				continue
+			}
+			for alt := 1; alt < p.N; alt++ {
+				nd := map[string]int{p.Site: alt}
+				for k, v := range dev {
+					nd[k] = v
+				}
+				k := devKey(nd)
+				if explored[k] {
+					continue
+				}
+				explored[k] = true
+				if err := rec(nd); err != nil {
+					return err
+				}
+			}
+		}
+		return nil
+	}
+	err := rec(map[string]int{})
+	return st, err
+}
+
+// siteClass strips the instance-specific part of a site name ("contribute 1->3" -> "contribute").
+func siteClass(s string) string {
+	if i := strings.Index(s, " "); i > 0 {
+		return s[:i]
+	}
+	return s
 }
